@@ -74,7 +74,7 @@ add("C08", "other",
     "DESIGN.md section 4 C08")
 
 add("C05", "proof",
-    "Contracts on the real cryptoSignVerify, unpackSig, polyVecLChkNorm, cryptoSignOpen, Verify, Open: acceptance implies (a) the hint trailer is canonical (unpackSig returns 0 exactly on canonical encodings: non-decreasing counts <= omega, strictly increasing positions per row, zero padding), (b) every coefficient of the response decoded from the signature bytes has centred absolute value < gamma1-beta, (c) all 32 challenge bytes equal SHAKE-256(mu || packed w1') with mu = SHAKE-256(SHAKE-256(pk)[0:32] || m)[0:64] and the packed buffer the exact nibble packing of the recomputed w1'; errors are never turned into acceptance; Open returns non-nil exactly when the signature part verifies on the message part and then returns exactly that message; z-packing is canonical (lemma L_canon_z).",
+    "Contracts on the real cryptoSignVerify, unpackSig, polyVecLChkNorm, cryptoSignOpen, Verify, Open: acceptance implies (a) the hint trailer is canonical (unpackSig returns 0 exactly on canonical encodings: non-decreasing counts <= omega, strictly increasing positions per row, zero padding), (b) every coefficient of the response decoded from the signature bytes has centred absolute value < gamma1-beta, (c) all 32 challenge bytes equal SHAKE-256(mu || packed w1') with mu = SHAKE-256(SHAKE-256(pk)[0:32] || m)[0:64] and the packed buffer the exact nibble packing of the recomputed w1'; errors are never turned into acceptance; conversely (`return k assert` clauses) verification returns false only when the hint section is not canonical, or some decoded response coefficient has centred absolute value >= gamma1-beta, or a challenge byte differs from the recomputed one; Open returns non-nil exactly when the signature part verifies on the message part and then returns exactly that message; z-packing is canonical (lemma L_canon_z).",
     "'Any flipped bit / other message / other key is rejected' is a collision-resistance statement and is not claimed (DESIGN.md section 9). unpackSig's decoded-hint characterisation (exactly the listed positions become 1) is proved; the re-encoding lemma for the hint trailer is not. Clauses (c) are internal postconditions (`exit` clauses over the function's locals). SHAKE model T4.",
     "contract-based deductive verification: functional contracts with uninterpreted hashes on the real verification code, z3/cvc5",
     "DESIGN.md section 4 C05")
